@@ -307,6 +307,129 @@ def check_wrappers(repo, rep, ops, ad):
     rep.floor('plain operator wrappers', n, 30)
 
 
+def _returned_expr(body, pnames):
+    """Straight-line body (single-assignment locals, then a return): the
+    returned expression with the locals substituted; else None."""
+    env = {}
+
+    class Sub(ast.NodeTransformer):
+        def visit_Name(self, n):
+            if isinstance(n.ctx, ast.Load) and n.id in env:
+                return env[n.id]
+            return n
+    import copy
+    for st in body[:-1]:
+        if not (isinstance(st, ast.Assign) and len(st.targets) == 1 and
+                isinstance(st.targets[0], ast.Name)):
+            return None
+        t = st.targets[0].id
+        if t in env or t in pnames:
+            return None
+        env[t] = Sub().visit(copy.deepcopy(st.value))
+    if not body or not isinstance(body[-1], ast.Return) or \
+            body[-1].value is None:
+        return None
+    return Sub().visit(copy.deepcopy(body[-1].value))
+
+
+def _is_plain(v, sym, pnames):
+    if isinstance(v, ast.Compare) and sym in CMPOPS and len(v.ops) == 1 \
+            and isinstance(v.left, ast.Name) and isinstance(
+            v.comparators[0], ast.Name):
+        names = [v.left.id, v.comparators[0].id]
+        op = type(v.ops[0])
+        return (op is CMPOPS[sym] and names == pnames) or (
+            SWAP.get(op) is CMPOPS[sym] and names == pnames[::-1])
+    if isinstance(v, ast.BinOp) and sym in BINOPS and isinstance(
+            v.left, ast.Name) and isinstance(v.right, ast.Name):
+        names = [v.left.id, v.right.id]
+        if not isinstance(v.op, BINOPS[sym]):
+            return False
+        return names == pnames or (sym in ('+', '*') and
+                                   names == pnames[::-1])
+    return False
+
+
+def check_scalar_overloads_plain(repo, rep, ops, ad, uni):
+    """R15f: the overloads that number x number and str x str operands
+    dispatch to ARE python's operation (shape required, not just checked
+    when present); `=` and `!=` are python ==/!= and complements."""
+    n = 0
+    fam = {'int': 'number', 'float': 'number', 'str': 'string'}
+    for name, ovs in ops.items():
+        sym = name.split('_')[-1]
+        if sym == '/' or name in UNARY:
+            continue       # R15e / unary handled by R15d
+        for o in ovs:
+            ps = visible(o)
+            if len(ps) != 2 or any(p.kind in ('vararg', 'varkw')
+                                   for p in ps):
+                continue
+            kinds = [[k for k in NONNULL if ad.admits(p.type, k)]
+                     for p in ps]
+            if not all(kinds) or any(k not in fam for ks in kinds
+                                     for k in ks):
+                continue
+            fams = {fam[k] for ks in kinds for k in ks}
+            if len(fams) != 1:
+                continue
+            n += 1
+            fi = o.func
+            body = model.strip_docstring(fi.node.body)
+            pnames = [p.name for p in ps]
+            rv = _returned_expr(body, pnames)
+            ok = rv is not None and _is_plain(rv, sym, pnames)
+            rep.ob('R15f', '%s[%s]' % (fi.key, name), ok,
+                   '%s is the overload %s x %s operands of `%s` dispatch to; '
+                   'its body is not the plain python operation `%s %s %s` '
+                   'on its parameters (%s): the ordering/arithmetic of '
+                   'scalars is no longer python\'s, which the laws of the '
+                   'statement are derived from' % (
+                       fi.qualname, '/'.join(kinds[0]), '/'.join(kinds[1]),
+                       sym, pnames[0], sym if sym != 'mod' else '%',
+                       pnames[1], model.norm(body[-1]).split('\n')[0][:80]),
+                   loc=fi.module.loc(fi.node),
+                   construct=model.norm(body[-1]).split('\n')[0][:120])
+    rep.floor('same-family scalar overloads required to be plain', n, 12)
+    # equality pair
+    want = {'*equal': ast.Eq, '*not_equal': ast.NotEq}
+    found = 0
+    for name, op in want.items():
+        ovs = [o for o in uni.reg.by_name(name) if o.ctx == 'default']
+        if not ovs:
+            raise AnalysisError('anchor vanished: no overload of ' + name)
+        for o in ovs:
+            found += 1
+            fi = o.func
+            ps = [p.name for p in visible(o)]
+            body = model.strip_docstring(fi.node.body)
+            ok = False
+            v = _returned_expr(body, ps)
+            if v is not None:
+                neg = False
+                if isinstance(v, ast.UnaryOp) and isinstance(v.op, ast.Not):
+                    v = v.operand
+                    neg = True
+                if isinstance(v, ast.Compare) and len(v.ops) == 1 and \
+                        isinstance(v.left, ast.Name) and isinstance(
+                        v.comparators[0], ast.Name) and sorted(
+                        [v.left.id, v.comparators[0].id]) == sorted(ps):
+                    t = type(v.ops[0])
+                    if neg:
+                        t = {ast.Eq: ast.NotEq, ast.NotEq: ast.Eq}.get(t)
+                    ok = t is op
+            rep.ob('R15f', '%s[%s]' % (fi.key, name), ok,
+                   '`%s` (%s) must be python `%s` on its two operands: '
+                   '"exactly one of <, =, > holds" and `=`/`!=` being '
+                   'complements rest on it; its body is `%s`' % (
+                       name, fi.qualname, '==' if op is ast.Eq else '!=',
+                       ' ; '.join(model.norm(b).split('\n')[0][:60]
+                                  for b in body)),
+                   loc=fi.module.loc(fi.node),
+                   construct=model.norm(body[0]).split('\n')[0][:120])
+    rep.floor('equality overloads', found, 2)
+
+
 def check_int_division(repo, rep):
     m = repo.module('yaql.standard_library.math')
     div = m.func('division')
@@ -366,6 +489,10 @@ def run(repo, rep):
              'declaration order (or the mirrored comparison)')
     rep.rule('R15e', 'INT-DIVISION: both-int division uses //, modulo uses '
              '%')
+    rep.rule('R15f', 'SCALAR-OVERLOADS-ARE-PLAIN: the number x number and '
+             'str x str overloads of the ordering and +,-,*,mod operators '
+             'consist of the plain python operation; *equal/*not_equal are '
+             'python ==/!= (complements)')
     rep.trusted += ['Python int/float/str semantics give the algebraic '
                     'laws once the wrappers are faithful']
     rep.explanation = (
@@ -382,5 +509,6 @@ def run(repo, rep):
     check_null_table(rep, ops, ad)
     check_wrappers(repo, rep, ops, ad)
     check_int_division(repo, rep)
+    check_scalar_overloads_plain(repo, rep, ops, ad, uni)
     rep.count(operator_names=len(ops),
               overloads=sum(len(v) for v in ops.values()))
